@@ -10,6 +10,7 @@ Three monitors over the real code:
   C. export -> import and freeze -> thaw: the message must serialise to the same datagram and keep its logged
      attributes; EQ events and HTTP flows must come back equal.
 """
+import datetime
 import random
 import re
 
@@ -60,7 +61,7 @@ ASSUMPTIONS = [
 MUST_REACH = {"filter_evaluations": 20000, "filters_compiled": 1500, "true_verdicts": 2000, "false_verdicts": 2000,
               "type_mismatch_leaves_evaluated": 300, "subfield_leaves_evaluated": 100, "view_ops": 1500, "view_checks": 1500,
               "window_overflows": 100, "refilters_with_aged_out_visible": 20, "export_import_checked": 100,
-              "freeze_thaw_checked": 100, "entry_kinds_covered": 6, "directed_equality_pairs": 300}
+              "freeze_thaw_checked": 100, "entry_kinds_covered": 6, "directed_equality_pairs": 300, "directed_wildcard_subfield_leaves": 100, "tz_covered": 3}
 
 PRIM = (int, float, bytes, str, type(None), tuple, TupleCoord)
 OPS = ["==", "!=", "^=", "$=", "~=", ">", ">=", "<", "<=", "&"]
@@ -472,7 +473,10 @@ class World:
         name = rng.choice(["HVEvent", "ParcelProperties", "AgentGroupDataUpdate", "Foo", "EstablishAgentCommunication"])
         body = {"serial": rng.randrange(0, 1 << 20), "text": rng.choice(["", "x", "hello"]), "id": UUID(int=rng.getrandbits(128)),
                 "nested": {"list": [1, 2.5, "three", b"\x04"], "flag": rng.choice([True, False])}, "ratio": rng.choice([0.5, 2.25]),
-                "nothing": None}
+                "nothing": None,
+                # dates as the LLSD parsers hand them out: naive (UTC by convention) or timezone-aware
+                "when": rng.choice([datetime.datetime(2020, 4, 20, 7, 20, 39), datetime.datetime(2021, 12, 31, 23, 59, 59, 500000),
+                                    datetime.datetime(2022, 7, 1, 12, 0, 0, tzinfo=datetime.timezone.utc)])}
         for k in rng.sample(sorted(body), rng.randint(0, 3)):
             del body[k]
         event = {"message": name, "body": body}
@@ -760,6 +764,36 @@ def semantics(ctx, world, rounds):
             for (block, idx, var, value, sub) in model.fields:
                 if not (ident_ok(model.name) and ident_ok(block) and ident_ok(var)):
                     continue
+                # a wildcard in the sub-field position selects several keys of an unpacked field: the comparison holds when ANY
+                # of them satisfies it - aimed at the last key's value (the earlier ones fail) and at the first one's
+                if sub and len(sub) >= 2:
+                    keys = list(sub.keys())
+                    cands = []
+                    for k in (keys[-1], keys[0], keys[len(keys) // 2]):
+                        v = sub[k]
+                        lit = v if isinstance(v, (int, float, str, bytes)) and not isinstance(v, bool) else \
+                            tuple(v) if isinstance(v, TupleCoord) else None
+                        if lit is not None and literal_ok(lit):
+                            cands.append((k, v, lit))
+                    # ... and at values only some of the keys have: the zero vector / zero (an object that spins but does not move)
+                    for k in keys:
+                        v = sub[k]
+                        if isinstance(v, TupleCoord) and len(tuple(v)) in (3, 4):
+                            cands.append((k, v, tuple(0.0 for _ in tuple(v))))
+                            break
+                    for k in keys:
+                        if isinstance(sub[k], int) and not isinstance(sub[k], bool):
+                            cands.append((k, sub[k], 0))
+                            break
+                    for (k, v, lit) in cands:
+                        if isinstance(lit, (int, float)) and not isinstance(v, TupleCoord):
+                            lit = type(lit)(lit) if type(lit) in (int, float) else (int(lit) if isinstance(lit, int) else float(lit))
+                        for ksel in ("*", str(k)[:1] + "*" if ident_ok(str(k)[:1] or "x") else "*"):
+                            if not ident_ok(ksel):
+                                continue
+                            for op in ("==", "!="):
+                                work.append((("leaf", (model.name, block, var, ksel), op, ("lit", lit, lit_text(rng, lit))), [(entry, model)]))
+                                ctx.count("directed_wildcard_subfield_leaves")
                 lits = []
                 if isinstance(value, TupleCoord):
                     # (the filter grammar has no negative number literals)
@@ -1031,7 +1065,7 @@ def persistence(ctx, world, n):
                 continue
             ctx.count("export_import_checked")
             ctx.ev()
-            if gen_spec.canon(back.event) != gen_spec.canon(entry.event) or back.name != entry.name or back.type != "EQ":
+            if gen_spec.canon(_instants(back.event)) != gen_spec.canon(_instants(entry.event)) or back.name != entry.name or back.type != "EQ":
                 ctx.violation("export-import-changes:eq-event", "an exported and re-imported event differs",
                               {"before": repr(entry.event)[:300], "after": repr(back.event)[:300]})
             ctx.nontrivial(("persist", "EQ", repr(sorted(entry.event["body"]))))
@@ -1073,7 +1107,25 @@ def _loose(v):
     return v
 
 
+def _instants(v):
+    """LLSD dates are instants (naive = UTC by convention, some parsers return timezone-aware ones): compared as such."""
+    if isinstance(v, datetime.datetime) and v.tzinfo is not None:
+        return v.astimezone(datetime.timezone.utc).replace(tzinfo=None)
+    if isinstance(v, dict):
+        return {k: _instants(x) for k, x in v.items()}
+    if isinstance(v, (list, tuple)):
+        return type(v)(_instants(x) for x in v)
+    return v
+
+
 def run(ctx):
+    # the process time zone is part of the environment (dates travel through export / import): three zones over the shards
+    import os
+    import time as _time
+    tz = ["UTC", "America/Los_Angeles", "Asia/Kolkata"][ctx.shard % 3]
+    os.environ["TZ"] = tz
+    _time.tzset()
+    ctx.cover("tz", tz)
     world = World(ctx.rng, ctx.seed)
     try:
         semantics(ctx, world, ctx.pick(24, 160))
